@@ -4,6 +4,14 @@ identical on both sides.  Only public API is used, plus read-only access to Task
 import sys
 
 
+
+def _let_timeouts_through(e):
+    """`except BaseException` around code of the implementation must not swallow the worker's per-case watchdog
+    (worker.CaseTimeout): a hang is reported as a hang (and the worker restarted), not as an outcome `raised-CaseTimeout`"""
+    if type(e).__name__ == "CaseTimeout":
+        raise e
+
+
 def sx(x):
     """JSON-ish nested lists -> S-expression text (iterative: programs can be nested thousands of levels deep)"""
     out = []
@@ -270,6 +278,7 @@ class Harness(object):
         try:
             v = f.value()
         except BaseException as e:
+            _let_timeouts_through(e)
             return ["err", self.etok(e)]
         return ["ok", self.vtok(v)]
 
@@ -472,6 +481,7 @@ class Harness(object):
                 except GeneratorExit:
                     raise
                 except BaseException as e:
+                    _let_timeouts_through(e)
                     recv = ["err", self.etok(e)]
                     st["caught"] = e
                     body = hh
@@ -491,6 +501,7 @@ class Harness(object):
                 except GeneratorExit:
                     raise
                 except BaseException as e:
+                    _let_timeouts_through(e)
                     self.emit(["syncX", me, self.fid(t), ["err", self.etok(e)]])
                     st["caught"] = e
                     body = body[4]
@@ -506,6 +517,7 @@ class Harness(object):
                 except GeneratorExit:
                     raise
                 except BaseException as e:
+                    _let_timeouts_through(e)
                     self.emit(["syncX", me, self.fid(f), ["err", self.etok(e)]])
                     st["caught"] = e
                     body = body[3]
@@ -598,6 +610,7 @@ def run_program(case):
                 batch.items[0].value()
             H.emit(["hookpeek", "ok"])
         except BaseException as e:
+            _let_timeouts_through(e)
             H.emit(["hookpeek", H.etok(e)])
 
     sched.on_before_batch_flush.subscribe(before)
